@@ -56,7 +56,7 @@ Proof. intros H. unfold dget, dset. cbn. rewrite (lookup_update_other nm nm' _ H
 (** the dictionary a bookkeeping function writes *)
 Definition writes (g : agg) : option Z :=
   match g with
-  | Tally i | TallyS i => Some (100 + Z.of_nat i) | TallyC _ _ => Some 99 | First nm _ | Every nm _ _ | Subtotal nm _ _ | AssignK nm _ _ => Some nm
+  | Tally i | TallyS i => Some (100 + Z.of_nat i) | TallyC _ _ => Some 99 | First nm _ | Every nm _ _ | Subtotal nm _ _ | AssignK nm _ _ | AssignQK _ nm _ _ => Some nm
   | Counter _ _ | Sum _ _ | CounterE _ _ | CounterEq _ _ _ => None
   | CountIf _ nm _ => Some nm
   | AssignQ _ _ _ => None
@@ -94,7 +94,7 @@ Section Agg.
   Lemma do_agg_keeps_first s l g nm key z : (match g with First _ _ => True | _ => writes g <> Some nm end) ->
     dget (x mx s) nm key = Some (VI z) -> dget (x mx (fst (do_agg q blanks AND s l g))) nm key = Some (VI z).
   Proof.
-    intros Hw H. destruct g as [i|nm' i|nm' i n|nm' k|nm' e|nm' i e|nm' key' e|i|i j|nm' e|nm' k n|v' nm' c'|qs' v' e']; cbn [do_agg writes] in *.
+    intros Hw H. destruct g as [i|nm' i|nm' i n|nm' k|nm' e|nm' i e|nm' key' e|i|i j|nm' e|nm' k n|v' nm' c'|qs' nm' key' e'|qs' v' e']; cbn [do_agg writes] in *.
     - cbn [fst x with_mx]. rewrite dget_dset_other_dict; [exact H|]. intros E. apply Hw. rewrite E. reflexivity.
     - destruct (Z.eq_dec nm' nm) as [->|Hn].
       + destruct (dget (x mx s) nm (hdr_key l i)) as [[z'|z'|t|]|] eqn:E; cbn [fst x with_mx]; try exact H.
@@ -111,6 +111,8 @@ Section Agg.
     - cbn [fst x with_mx]. exact H.
     - cbn [fst x with_mx]. exact H.
     - cbn [fst x with_mx]. rewrite dget_vars_stacks, dget_dset_other_dict; [exact H|]. intros E. apply Hw. rewrite E. reflexivity.
+    - destruct (Assign.do_assignment _ _ _ _) as [[[|] vote]|]; cbn [fst x with_mx]; try exact H.
+      rewrite dget_dset_other_dict; [exact H|]. intros E. apply Hw. rewrite E. reflexivity.
     - destruct (Assign.do_assignment _ _ _ _) as [[[|] vote]|]; cbn [fst x with_mx]; exact H.
   Qed.
 
@@ -263,6 +265,29 @@ Section Steps.
     destruct (Assign.write qs true _ _) eqn:Ew; cbn [fst snd x with_mx vars].
     - split; [reflexivity|]. split; [intros _; apply lookup_update_same|]. split; [discriminate|]. intros w Hn. apply lookup_update_other. exact Hn.
     - split; [reflexivity|]. split; [discriminate|]. split; [reflexivity|]. reflexivity.
+  Qed.
+
+  (* @nm.key.<qualifiers> = e: the same table, read from and written to the value the variable holds under that key — the other keys of
+     the variable, and every other variable, keep what they hold *)
+  Theorem assign_qk_step s l qs nm key e :
+    let cur := aval_of (match dget (x mx s) nm key with Some c0 => c0 | None => VNone end) in
+    let y := aval_of (nvalue blanks s l e) in
+    let r := do_agg q blanks AND s l (AssignQK qs nm key e) in
+    Assign.comparable cur y = true ->
+    snd r = Assign.vote qs true cur y /\
+    (Assign.write qs true cur y = true -> dget (x mx (fst r)) nm key = Some (nvalue blanks s l e)) /\
+    (Assign.write qs true cur y = false -> fst r = s) /\
+    (forall key', key <> key' -> dget (x mx (fst r)) nm key' = dget (x mx s) nm key') /\
+    (forall nm' key', nm <> nm' -> dget (x mx (fst r)) nm' key' = dget (x mx s) nm' key') /\
+    vars (x mx (fst r)) = vars (x mx s).
+  Proof.
+    cbn zeta. intros Hc. cbn [do_agg].
+    destruct (AssignProofs.assignment_total qs true _ _ Hc) as (w & vt & E). rewrite E.
+    destruct (AssignProofs.assignment_table qs true _ _ w vt E) as [Hw Hv]. subst w vt.
+    destruct (Assign.write qs true _ _) eqn:Ew; cbn [fst snd x with_mx].
+    - split; [reflexivity|]. split; [intros _; apply dget_dset_same|]. split; [discriminate|].
+      split; [intros key' Hk; apply dget_dset_other_key; exact Hk|]. split; [intros nm' key' Hn; apply dget_dset_other_dict; exact Hn|reflexivity].
+    - split; [reflexivity|]. split; [discriminate|]. split; [reflexivity|]. split; [reflexivity|]. split; reflexivity.
   Qed.
 
   Theorem sum_step s l nm e :
